@@ -25,7 +25,7 @@ TReset == /\ IsEvent("Reset")
           /\ st' = [s \in Sess |-> "absent"] /\ regs' = [s \in Sess |-> {}]
           /\ sess' = [a \in Assoc |-> NoSess] /\ circ' = [s \in Sess |-> [h \in Sims |-> "none"]]
           /\ hnd' = [s \in Sess |-> [h \in Sims |-> 0]]
-          /\ ev' = Ev("Init", 0, 0, "", 0, FALSE) /\ out' = NoOut
+          /\ ev' = Ev("Init", 0, 0, "", 0, FALSE, "none") /\ out' = NoOut
           /\ tid' = Rec.tid /\ addr' = NoAddr
 \* {"ev":"Cfg","clients":[{"ip":[..4],"port":p}..NA],"sims":[..NH]}: addresses of this trace
 TCfg == /\ IsEvent("Cfg")
@@ -67,7 +67,7 @@ TReg == /\ IsEvent("Reg")
         /\ Chk("Reg.state env Reg " \o ToString(Rec.i), ProjOK(Rec.proj)) /\ Chk("Reg.sent env Reg " \o ToString(Rec.i), Rec.sent = <<>>)
         /\ UNCHANGED <<tid, addr>>
 \* label: the message name the driver used, i: index of the event in its trace (only quoted in failure names)
-\* {"ev":"C","a":a,"src":{ip,port},"data":[..],"k":kind,"s":s,"label":name,"sent":[{"via":a,"data":[..],"to":{ip,port}}..],"proj":{..}}
+\* {"ev":"C","a":a,"src":{ip,port},"data":[..],"k":kind,"s":s,"ft":"none"|"err"|"raise","label":name,"sent":[{"via":a,"data":[..],"to":{ip,port}}..],"proj":{..}}
 TClient == /\ IsEvent("C")
            /\ LET r == SocksStrip(Rec.data)
                   h == IF r.ok /\ r.atyp = 1 THEN HostOf(r.addr, r.port) ELSE Unk
@@ -78,7 +78,8 @@ TClient == /\ IsEvent("C")
                  \* the two choices the property leaves open are read off the observed public state
                  /\ Client(Rec.a, h, Rec.k, Rec.s,
                            \/ (Rec.k \in Kill /\ IsOpen(Rec.a, h) /\ Rec.proj.circ[sess[Rec.a]][h] # "open")
-                           \/ (Rec.k = "ucc" /\ CanClaim(Rec.a, Rec.s) /\ h \notin regs[Rec.s] /\ Rec.proj.sess[Rec.a] = Rec.s))
+                           \/ (Rec.k = "ucc" /\ CanClaim(Rec.a, Rec.s) /\ h \notin regs[Rec.s] /\ Rec.proj.sess[Rec.a] = Rec.s),
+                           Rec.ft)
                  /\ Chk("C.sent " \o Rec.k \o " " \o Rec.label \o " " \o ToString(Rec.i), SentOK(r.data))
                  /\ Chk("C.state " \o Rec.k \o " " \o Rec.label \o " " \o ToString(Rec.i), ProjOK(Rec.proj))
            /\ UNCHANGED <<tid, addr>>
@@ -89,7 +90,7 @@ THost == /\ IsEvent("H")
          /\ Env("H.spoof comes from a foreign IP", Rec.k = "spoof" => Rec.src.ip # addr.clients[Rec.a].ip)
          /\ Env("H.spoof is a SOCKS request", Rec.k = "spoof" => SocksStrip(Rec.data).ok)
          /\ LET h == HostOf(Rec.src.ip, Rec.src.port)
-            IN Host(Rec.a, h, Rec.k, Rec.s, Rec.k \in Kill /\ IsOpen(Rec.a, h) /\ Rec.proj.circ[sess[Rec.a]][h] # "open")
+            IN Host(Rec.a, h, Rec.k, Rec.s, Rec.k \in Kill /\ IsOpen(Rec.a, h) /\ Rec.proj.circ[sess[Rec.a]][h] # "open", Rec.ft)
          /\ Chk("H.sent " \o Rec.k \o " " \o Rec.label \o " " \o ToString(Rec.i), SentOK(Rec.data))
          /\ Chk("H.state " \o Rec.k \o " " \o Rec.label \o " " \o ToString(Rec.i), ProjOK(Rec.proj))
          /\ UNCHANGED <<tid, addr>>
